@@ -380,6 +380,9 @@ func (s *c14Sim) complete(ev c14Pend) {
 	s.lastDone[i] = now
 	after := s.score(i)
 	what := fmt.Sprintf("completion #%d (acceptable=%v, latency %dns, %dns after the previous one)", s.nDone[i], ok, now-ev.start, td)
+	if td == math.MaxInt64 {
+		what = fmt.Sprintf("completion #1 (acceptable=%v, latency %dns)", ok, now-ev.start)
+	}
 
 	if after > c14ScoreMax {
 		s.violation("score-range", i, "%s: success %d -> %d outside [0,1000]", what, before, after)
@@ -687,12 +690,12 @@ func c14ConcGen(rt *rapid.T) c14Case {
 }
 
 func TestVerif_C14_concurrent(t *testing.T) {
-	kit.Run(t, "C14", "concurrent", kit.Opts{Quick: 300, Thorough: 12000}, c14ConcGen,
+	kit.Run(t, "C14", "concurrent", kit.Opts{Quick: 300, Thorough: 8000}, c14ConcGen,
 		func(c c14Case) kit.Verdict { return c14History(t, c) })
 }
 
 func TestVerif_C14_history(t *testing.T) {
-	kit.Run(t, "C14", "history", kit.Opts{Quick: 4000, Thorough: 160000}, c14Gen,
+	kit.Run(t, "C14", "history", kit.Opts{Quick: 4000, Thorough: 128000}, c14Gen,
 		func(c c14Case) kit.Verdict { return c14History(t, c) })
 }
 
@@ -806,12 +809,12 @@ var c14PrefLats = []int64{100_300, 250_500, 1_000_500, 4_001_000}
 
 func c14PrefGen(rt *rapid.T) c14PrefCase {
 	c := c14PrefCase{
-		N:     rapid.IntRange(3, 6).Draw(rt, "n"),
-		Pre:   rapid.Int64Range(0, c14Sec).Draw(rt, "pre"),
-		Lat:   rapid.SampledFrom(c14PrefLats).Draw(rt, "lat"),
-		Gap:   rapid.SampledFrom([]int64{0, 50_000, 300_000, 1_000_000}).Draw(rt, "gap"),
-		UC:    rapid.IntRange(0, 4).Draw(rt, "uc"),
-		HC:    rapid.IntRange(0, 14).Draw(rt, "hc"),
+		N:   rapid.IntRange(3, 6).Draw(rt, "n"),
+		Pre: rapid.Int64Range(0, c14Sec).Draw(rt, "pre"),
+		Lat: rapid.SampledFrom(c14PrefLats).Draw(rt, "lat"),
+		Gap: rapid.SampledFrom([]int64{0, 50_000, 300_000, 1_000_000}).Draw(rt, "gap"),
+		UC:  rapid.IntRange(0, 4).Draw(rt, "uc"),
+		HC:  rapid.IntRange(0, 14).Draw(rt, "hc"),
 	}
 	// sample sizes: eps(N) <= 0.8 * 0.25/(1.75 n), i.e. a backend that is NOT avoided at
 	// all (share 1/n like the others) is reported with margin; see c14Preference
@@ -821,7 +824,7 @@ func c14PrefGen(rt *rapid.T) c14PrefCase {
 }
 
 func TestVerif_C14_preference(t *testing.T) {
-	kit.Run(t, "C14", "preference", kit.Opts{Quick: 24, Thorough: 1600}, c14PrefGen,
+	kit.Run(t, "C14", "preference", kit.Opts{Quick: 24, Thorough: 800}, c14PrefGen,
 		func(c c14PrefCase) kit.Verdict { return c14Preference(t, c) })
 }
 
@@ -979,6 +982,6 @@ func c14StarveGen(rt *rapid.T) c14StarveCase {
 }
 
 func TestVerif_C14_starvation(t *testing.T) {
-	kit.Run(t, "C14", "starvation", kit.Opts{Quick: 50, Thorough: 2400}, c14StarveGen,
+	kit.Run(t, "C14", "starvation", kit.Opts{Quick: 50, Thorough: 1600}, c14StarveGen,
 		func(c c14StarveCase) kit.Verdict { return c14Starvation(t, c) })
 }
